@@ -65,7 +65,37 @@ func famConns(w *World) {
 	for op := 0; op < nops; op++ {
 		a := w.Nodes[scn(nn)]
 		b := w.Nodes[(indexOf(w.Nodes, a)+1+scn(nn-1))%nn]
-		switch k := scn(11); k {
+		switch k := scn(12); k {
+		case 11: // an alias connect whose connection is cut the moment its handshake completes
+			for _, al := range sortedKeys(alias) {
+				if alias[al] != b {
+					continue
+				}
+				n0 := len(w.Net.Links)
+				clean := scnChance(1, 2)
+				w.tasks(func() {
+					ctx, cancel := context.WithTimeout(context.Background(), time.Second)
+					a.Ch.Connect(ctx, al)
+					cancel()
+				}, func() {
+					for i := 0; i < 300; i++ {
+						if len(w.Net.Links) > n0 {
+							if l := w.Net.Links[len(w.Net.Links)-1]; l.handshakeDone() {
+								w.Net.Fired["net.cut-after-handshake"]++
+								w.event("op", "link%d is cut right after its handshake (clean=%v)", l.ID, clean)
+								if clean {
+									l.B.Close()
+								} else {
+									l.reset(w.Net, "conns: cut after handshake")
+								}
+								return
+							}
+						}
+						sleep(w.Grid / 20)
+					}
+				})
+				w.event("op", "%s connected to %s through alias %s while the link was being cut", a.Name, b.Name, al)
+			}
 		case 0, 1: // connect
 			ctx, cancel := context.WithTimeout(context.Background(), time.Second)
 			a.Ch.Connect(ctx, b.HostPort)
@@ -372,9 +402,15 @@ func (w *World) checkBookkeeping(alias map[string]*Node, referenced map[string]m
 			if len(p.InboundConnections)+len(p.OutboundConnections) == 0 && w.mustLeave[n.Name+"/"+hp] && w.liveConnections(n, hp) == 0 {
 				w.violate("C16", "unreferenced-peer-kept", "%s, node %s: peer %s was removed from the only peer list that held it while it still had a connection; its last connection is gone now, but it is still in the root list (the library counts %d list references)", when, n.Name, hp, p.SCCount)
 			}
+			for _, c := range append(append([]tchannel.ConnectionRuntimeState{}, p.InboundConnections...), p.OutboundConnections...) {
+				// the library itself listed this connection on this peer
+				w.mustLeave["seen:"+n.Name+"/"+hp+"/"+c.LocalHostPort+">"+c.RemoteHostPort] = true
+			}
 			// a peer nobody references and that has no connection must have left the root list
+			// (a peer that never got a connection listed - its only connection died before it could
+			// be registered under this name - is like one created by a failed Connect: it stays)
 			if len(p.InboundConnections)+len(p.OutboundConnections) == 0 && p.SCCount == 0 && !referenced[n.Name][hp] {
-				if w.hadConnection(n, hp) {
+				if w.lastConnectionWasListed(n, hp) {
 					w.violate("C16", "stale-peer-in-root-list", "%s, node %s: peer %s has no connection left and no peer list references it, but it is still in the root list", when, n.Name, hp)
 				}
 			}
@@ -536,6 +572,32 @@ func (w *World) liveConnections(n *Node, hp string) int {
 		}
 	}
 	return k
+}
+
+// lastConnectionWasListed: the most recent link of node n that belongs to peer hp was seen
+// listed on that peer by the library (so its removal was "the peer's last connection removed").
+func (w *World) lastConnectionWasListed(n *Node, hp string) bool {
+	var last *Link
+	side := 0
+	for _, l := range w.Net.Links {
+		for sd := 0; sd < 2; sd++ {
+			c := l.A
+			if sd == 1 {
+				c = l.B
+			}
+			if c.Owner == n.Name && l.handshakeDone() && (w.peerKeyFor(l, sd) == hp || (sd == 0 && string(l.A.dialled) == hp)) {
+				last, side = l, sd
+			}
+		}
+	}
+	if last == nil {
+		return false
+	}
+	c := last.A
+	if side == 1 {
+		c = last.B
+	}
+	return w.mustLeave["seen:"+n.Name+"/"+hp+"/"+string(c.local)+">"+string(c.remote)]
 }
 
 func (w *World) hadConnection(n *Node, hp string) bool {
